@@ -545,6 +545,9 @@ class World:
         """End of run: make sure no real thread or loop is left behind."""
         if self.server is not None:
             self.crash()
+            self.sim.stats['crash'] -= 1        # tearing the run down is not an injected fault
+            if not self.sim.stats['crash']:
+                del self.sim.stats['crash']
         self.sim.dead = True
         self.sim.kill_workers()
         self.sim.shutdown_pool()
